@@ -10,6 +10,7 @@ import (
 	"github.com/cloudflare/pat-go/quicwire"
 	"pgregory.net/rapid"
 
+	"verifharness/internal/gen"
 	"verifharness/internal/ref"
 	"verifharness/internal/rt"
 )
@@ -97,7 +98,7 @@ func TestBoundaryAndRandomValues(t *testing.T) {
 		if bits > 0 {
 			v = rapid.Uint64Range(0, (uint64(1)<<bits)-1).Draw(t, "v") | 1<<(bits-1)
 		}
-		prefix := rapid.SliceOfN(rapid.Byte(), 0, 9).Draw(t, "prefix")
+		prefix := gen.Bytes(t, 0, 9, "prefix")
 		spare := rapid.IntRange(0, 12).Draw(t, "spare")
 		buf := make([]byte, len(prefix), len(prefix)+spare)
 		copy(buf, prefix)
@@ -174,7 +175,7 @@ func TestDecodeTruncationsAndExtensions(t *testing.T) {
 			v = rapid.Uint64Range(0, quicwire.MaxVarint).Draw(t, "v")
 		}
 		enc := ref.VarintEncode(v)
-		tail := rapid.SliceOfN(rapid.Byte(), 0, 9).Draw(t, "tail")
+		tail := gen.Bytes(t, 0, 9, "tail")
 		for cut := 0; cut <= len(enc); cut++ {
 			s.Eval()
 			if err := checkDecode(enc[:cut:cut]); err != nil {
@@ -193,12 +194,14 @@ func TestDecodeTruncationsAndExtensions(t *testing.T) {
 			s.Nontrivial(enc, []byte{0xff}, tail)
 		}
 		// arbitrary bytes too
-		arb := rapid.SliceOfN(rapid.Byte(), 0, 12).Draw(t, "arb")
+		arb := gen.Bytes(t, 0, 12, "arb")
 		s.Eval()
 		if err := checkDecode(arb); err != nil {
 			t.Fatal(err)
 		}
-		s.Sample(func() any { return map[string]any{"v": v, "enc": rt.Hex(enc), "tail": rt.Hex(tail), "arb": rt.Hex(arb)} })
+		s.Sample(func() any {
+			return map[string]any{"v": v, "enc": rt.Hex(enc), "tail": rt.Hex(tail), "arb": rt.Hex(arb)}
+		})
 	})
 }
 
@@ -220,7 +223,7 @@ var hugeLens = []uint64{1 << 31, 1<<31 - 1, 1 << 32, 1<<32 + 1, 1 << 33, 1<<62 -
 func TestVarintBytes(t *testing.T) {
 	s := rt.S("varint-bytes").SetRule("ConsumeVarintBytes on buffers 'varint(declared) || payload' with declared in {remaining-1, remaining, remaining+1, 2^31.., 2^62-1, drawn} and guard bytes behind the slice; AppendVarintBytes round trip; non-trivial = declared != remaining; distinct by (declared, payload)")
 	rt.Check(t, 20000, 600000, func(t *rapid.T) {
-		payload := rapid.SliceOfN(rapid.Byte(), 0, 70).Draw(t, "payload")
+		payload := gen.Bytes(t, 0, 70, "payload")
 		rem := uint64(len(payload))
 		kind := rapid.IntRange(0, 5).Draw(t, "kind")
 		var declared uint64
@@ -287,7 +290,7 @@ func TestVarintBytes(t *testing.T) {
 			}
 		}
 		// round trip through the encoder, prefix preserved
-		prefix := rapid.SliceOfN(rapid.Byte(), 0, 5).Draw(t, "prefix")
+		prefix := gen.Bytes(t, 0, 5, "prefix")
 		enc := quicwire.AppendVarintBytes(append([]byte{}, prefix...), payload)
 		wantEnc := append(append(append([]byte{}, prefix...), ref.VarintEncode(rem)...), payload...)
 		if !bytes.Equal(enc, wantEnc) {
@@ -304,7 +307,7 @@ func TestVarintBytes(t *testing.T) {
 func TestUint8Bytes(t *testing.T) {
 	s := rt.S("uint8-bytes").SetRule("ConsumeUint8Bytes for every declared length 0..255 against drawn remaining lengths (guard bytes behind); AppendUint8Bytes round trip for every length 0..255; non-trivial = declared != remaining; distinct by (declared, remaining, payload)")
 	rt.Check(t, 8000, 200000, func(t *rapid.T) {
-		payload := rapid.SliceOfN(rapid.Byte(), 0, 300).Draw(t, "payload")
+		payload := gen.Bytes(t, 0, 300, "payload")
 		declared := rapid.IntRange(0, 255).Draw(t, "declared")
 		if rapid.Bool().Draw(t, "near") {
 			d := len(payload) + rapid.IntRange(-1, 1).Draw(t, "delta")
@@ -331,7 +334,7 @@ func TestUint8Bytes(t *testing.T) {
 			t.Fatalf("SIG=C19/u8bytes-empty")
 		}
 		if len(payload) <= 255 {
-			prefix := rapid.SliceOfN(rapid.Byte(), 0, 5).Draw(t, "prefix")
+			prefix := gen.Bytes(t, 0, 5, "prefix")
 			enc := quicwire.AppendUint8Bytes(append([]byte{}, prefix...), payload)
 			want := append(append(append([]byte{}, prefix...), byte(len(payload))), payload...)
 			if !bytes.Equal(enc, want) {
@@ -349,7 +352,7 @@ func TestUint8Bytes(t *testing.T) {
 func TestFixedInts(t *testing.T) {
 	s := rt.S("fixed-ints").SetRule("ConsumeUint32/ConsumeUint64 on drawn byte strings of length 0..12: value = big-endian prefix, failure exactly when too short; non-trivial = every case; distinct by input")
 	rt.Check(t, 5000, 100000, func(t *rapid.T) {
-		b := rapid.SliceOfN(rapid.Byte(), 0, 12).Draw(t, "b")
+		b := gen.Bytes(t, 0, 12, "b")
 		s.Eval()
 		s.Nontrivial(b)
 		v32, n32 := quicwire.ConsumeUint32(b)
